@@ -7,7 +7,7 @@ ids="$@"; [ -z "$ids" ] && ids=$(ls seeded)
 out=seeded/REGRESSION.txt; : > $out.tmp; [ -n "$RESUME" ] && cat $RESUME > $out.tmp
 for id in $ids; do
   pid=${id%%-*}
-  git -C /repo apply /verif/seeded/$id/patch.diff 2>/dev/null || { echo "$id patch-does-not-apply" | tee -a $out.tmp; continue; }
+  P=/verif/seeded/$id/patch.diff; [ -f /verif/seeded/$id/patch_rebased.diff ] && P=/verif/seeded/$id/patch_rebased.diff; git -C /repo apply $P 2>/dev/null || { echo "$id patch-does-not-apply" | tee -a $out.tmp; continue; }
   res=$(./check $pid 2>&1 | grep -v "^KNOWN")
   git -C /repo checkout -- .
   nviol=$(echo "$res" | grep -c "^VIOLATION")
